@@ -253,6 +253,26 @@ PROPS["C13"] = {
     "thorough": {"scale": 10, "shards": 16, "timeout": 1500, "fuzz": [("FuzzFold", 60)]},
 }
 
+PROPS["C14"] = {
+    "pkg": "c14",
+    "technique": "round-trip and differential property testing: int64 boundary durations against a string-level reference, HostPort and URL text/JSON round trips over grammar-generated inputs, Prefix text against net/netip; native fuzzing in the thorough tier",
+    "level_text": ("Generated-input search with round-trip and differential oracles: Duration text/JSON round trip and String() against a string-level reference on "
+                   "boundary and random int64 values (plus a sweep of every whole minute in +-300 h); HostPort round trip for arbitrary bracket-free hosts; "
+                   "Prefix.UnmarshalText against netip.ParsePrefix / ParseAddr; for every URL accepted by urlutil.Parse, MarshalText->UnmarshalText and "
+                   "encoding/json Marshal->Unmarshal (bare, in a struct field and in a map) must preserve String(). Exploration."),
+    "level_note": "Trusted: time.Duration.String, net/netip, net/url and encoding/json of go1.24.2. One open known finding (url-empty-text) is excluded by the predicate u.String()==\"\", counted, and re-demonstrated on every run.",
+    "rule": ("Non-trivial: Duration with a zero seconds/minutes component in time.Duration's text; HostPort host containing ':' or '%'; Prefix text accepted by the "
+             "reference; URL accepted by Parse whose text needs JSON escaping (& < > quote backslash U+2028/9 control) or contains % @ ? #. distinct = distinct "
+             "input. URL texts come from a grammar (schemes, userinfo, hosts incl. IPv6 zones, path segments with escapes, queries with JSON-hostile bytes, "
+             "fragments, opaque forms), piece soup and 0-2 edits; only Parse-accepted texts are in the property's domain."),
+    "assumptions": ["the JSON leg is restricted to URLs whose text is valid UTF-8 (JSON strings cannot carry other bytes)",
+                    "if net/url itself does not reproduce the text form (url.Parse(s).String() != s) the case is classified and skipped",
+                    "the empty text is not a bare address and is not asserted for Prefix"],
+    "expect_classes": {"url:accepted-needs-JSON-escaping": ("c14.url", 0.05), "prefix:with-slash-accepted": ("c14.prefix", 0.03)},
+    "quick": {"scale": 3, "shards": 1, "timeout": 300},
+    "thorough": {"scale": 10, "shards": 16, "timeout": 1500, "fuzz": [("FuzzURL", 60), ("FuzzPrefixHostPort", 30)]},
+}
+
 ALL_IDS = ["C%02d" % i for i in range(1, 21)]
 NOT_APPLICABLE = [
     {"property_id": pid, "reason": "check not built yet in this revision of the harness (work in progress; see DESIGN.md section 9)"}
